@@ -524,6 +524,15 @@ pub fn run_step(
             match sexp.borrow() {
                 SExp::Integer(l, v) => {
                     /* An integer picks a value from the context */
+                    if *v == bi_zero() {
+                        // A path consisting only of zero bytes selects nil, as in
+                        // the consensus evaluator (traverse_path).
+                        return Ok(RunStep::OpResult(
+                            l.clone(),
+                            Rc::new(SExp::Nil(l.clone())),
+                            Rc::new(step_.clone()),
+                        ));
+                    }
                     let flat_v = flatten_signed_int(v.clone());
                     return Ok(RunStep::OpResult(
                         l.clone(),
